@@ -67,18 +67,20 @@ Proof. intros H. unfold rw_sqrt, sqrt_call, is_math_sqrt_call. cbn [args_len Lis
 Section Sqrt.
 Variable d : dialect.
 
-Lemma math_sqrt_lookup n rho va s :
-  lookup rho nm_math = None -> math_pristine s ->
-  eval1 d (S (S (S (S n)))) rho va (EField (EIdent nm_math) nm_sqrt) s = Ok (VBuiltin B_sqrt) s.
+Lemma math_sqrt_lookup k rho va s :
+  lookup rho nm_math = None -> math_pristine s -> (5 <= k)%nat ->
+  eval1 d k rho va (EField (EIdent nm_math) nm_sqrt) s = Ok (VBuiltin B_sqrt) s.
 Proof.
-  intros Hl (tg & am & tm & Hg & Hm & Ht & Hs).
+  intros Hl (tg & am & tm & Hg & Hm & Ht & Hs) L.
   assert (Hr : reads rho nm_math s (VTable am)).
   { unfold reads. rewrite Hl. exists tg. split; [exact Hg|]. rewrite Hm. split; [left; discriminate|reflexivity]. }
-  assert (Hi : forall k, index d (S k) (VTable am) (VStr nm_sqrt) s = Ok (VBuiltin B_sqrt) s).
-  { intros k. rewrite (index_raw_hit d _ am (VStr nm_sqrt) s tm Ht); cbn [norm_key]; rewrite Hs; [reflexivity|discriminate]. }
-  rewrite eval1_S. eapply bind_ok_intro; [|reflexivity].
-  rewrite eval_S_field. eapply bind_ok_intro; [apply (reads_eval1 d _ _ _ _ _ _ Hr); lia|].
-  eapply bind_ok_intro; [apply Hi|reflexivity].
+  assert (Hi : forall j, index d (S j) (VTable am) (VStr nm_sqrt) s = Ok (VBuiltin B_sqrt) s).
+  { intros j. rewrite (index_raw_hit d _ am (VStr nm_sqrt) s tm Ht); cbn [norm_key]; rewrite Hs; [reflexivity|discriminate]. }
+  destruct k as [|[|[|k]]]; try lia.
+  rewrite eval1_S. eapply bind_ok_intro.
+  { rewrite eval_S_field. eapply bind_ok_intro; [apply (reads_eval1 d _ _ _ _ _ _ Hr); lia|].
+    eapply bind_ok_intro; [apply Hi|reflexivity]. }
+  reflexivity.
 Qed.
 
 (** [math.sqrt(e)] -> [e ^ 0.5]: same values, same store, whenever the original runs without
@@ -92,32 +94,25 @@ Theorem sqrt_sound n rho va e s r s' :
 Proof.
   intros Hl Hm H Hx k L.
   destruct n as [|n]; [discriminate|]. unfold sqrt_call in H. rewrite eval_S_call in H. inv_ok H.
-  destruct n as [|[|[|[|n]]]]; try discriminate.
-  1-3: (destruct Hm as (tg & am & tm & Hg & Hmm & Ht & Hs);
-        assert (Hr : reads rho nm_math s (VTable am))
-          by (unfold reads; rewrite Hl; exists tg; split; [exact Hg|]; rewrite Hmm; split; [left; discriminate|reflexivity]);
-        try discriminate H0).
-  - rewrite eval1_S in H0. inv_ok H0. discriminate H0.
-  - rewrite eval1_S in H0. inv_ok H0. rewrite eval_S_field in H0. inv_ok H0. discriminate H0.
-  - rewrite eval1_S in H0. inv_ok H0. rewrite eval_S_field in H0. inv_ok H0.
-    rewrite eval1_S in H0. inv_ok H0. rewrite (reads_eval d _ _ _ _ _ _ Hr) in H0 by lia.
-    inversion H0; subst. cbn [first] in H2. discriminate H2.
-  - rewrite (math_sqrt_lookup n rho va s Hl Hm) in H0. inversion H0; subst a s0. clear H0.
-    rename a0 into args, s1 into s1', H into Hargs, H2 into Hcall.
-    rewrite eval_args_S_tuple, eval_list_S_one in Hargs.
-    rewrite call_S_builtin, call_builtin_S_sqrt in Hcall.
-    replace (arg args 0) with (first args) in Hcall by (destruct args; reflexivity).
-    destruct (tonum (first args)) as [x|] eqn:Ex; [|discriminate Hcall].
-    unfold num_result in Hcall. inv_ok Hcall. subst r s'.
-    destruct (Hx _ _ _ _ Hargs Ex) as (Hv & Hz & Hi).
-    destruct k as [|[|[|k]]]; try lia.
-    rewrite eval_S_binop by reflexivity.
-    eapply bind_ok_intro.
-    { rewrite eval1_S. eapply bind_ok_intro; [eapply eval_up; [exact Hargs|lia]|reflexivity]. }
-    eapply bind_ok_intro.
-    { rewrite half_is, eval1_S, eval_S_number. reflexivity. }
-    cbn [first]. unfold binop_sem. eapply bind_ok_intro; [|reflexivity].
-    rewrite arith_S, Ex, half_value. cbn [tonum arith_num]. rewrite (fpow_half_sqrt x Hv Hz Hi). reflexivity.
+  pose proof (eval1_up d _ (n + 5) _ _ _ _ _ _ H0 ltac:(lia)) as H0'.
+  rewrite (math_sqrt_lookup (n + 5) rho va s Hl Hm ltac:(lia)) in H0'. inversion H0'; subst a s0. clear H0 H0'.
+  rename a0 into args, H into Hargs, H2 into Hcall.
+  destruct n as [|n]; [discriminate|].
+  rewrite eval_args_S_tuple in Hargs. destruct n as [|n]; [discriminate|]. rewrite eval_list_S_one in Hargs.
+  rewrite call_S_builtin, call_builtin_S_sqrt in Hcall.
+  replace (arg args 0) with (first args) in Hcall by (destruct args; reflexivity).
+  destruct (tonum (first args)) as [x|] eqn:Ex; [|discriminate Hcall].
+  unfold num_result in Hcall. inv_ok Hcall. subst r s'.
+  destruct (Hx _ _ _ _ Hargs Ex) as (Hv & Hz & Hi).
+  destruct k as [|[|[|k]]]; try lia.
+  rewrite eval_S_binop by reflexivity.
+  eapply bind_ok_intro.
+  { rewrite eval1_S. eapply bind_ok_intro; [eapply eval_up; [exact Hargs|lia]|reflexivity]. }
+  eapply bind_ok_intro.
+  { rewrite half_is, eval1_S, eval_S_number. reflexivity. }
+  cbn [first]. unfold binop_sem. eapply bind_ok_intro.
+  { rewrite arith_S, Ex, half_value. cbn [tonum arith_num]. rewrite (fpow_half_sqrt x Hv Hz Hi). reflexivity. }
+  reflexivity.
 Qed.
 
 End Sqrt.
